@@ -1,3 +1,46 @@
-import Mqtt5V.Basic
+import Mqtt5V.Props.C17
+/-! # C03 — QoS 2 sender: retransmissions are faithful (packet core)
+
+`control_packet::set_dup()` is the only thing the library ever changes in a stored PUBLISH.  In the encoder model:
+setting DUP on a PUBLISH that was encoded with DUP = 0 gives, byte for byte, the encoding of the same message with
+DUP = 1 — same packet identifier, same topic, payload, QoS, RETAIN and properties; nothing but bit 3 of the first byte
+changes; and it is idempotent.  With C17 this retransmission decodes (independent decoder) to the same message with
+DUP = 1.  (That the operation keeps only the PUBREL after a successful PUBREC is checked on the real client by the
+C03 monitor; the stored-packet state machine is not modelled in Lean.) -/
 namespace Mqtt5V.Props.C03
+open Mqtt5V.Wire Mqtt5V.Model.Enc
+
+/-- `set_dup()` touches only the first byte, and there only bit 3 -/
+theorem setDup_only_bit3 (b : Nat) (r : Bs) :
+    setDup (b :: r) = (if b / 8 % 2 = 1 then b else b + 8) :: r := rfl
+
+theorem setDup_idempotent (bs : Bs) : setDup (setDup bs) = setDup bs := by
+  cases bs with
+  | nil => rfl
+  | cons b r =>
+    simp only [setDup]
+    split
+    · rename_i h; simp [h]
+    · rename_i h
+      have : (b + 8) / 8 % 2 = 1 := by omega
+      rw [if_pos this]
+
+/-- **a retransmitted PUBLISH is byte-identical to the first transmission except for the DUP bit** -/
+theorem retransmission_identical_but_dup (pid : Nat) (topic payload : Bs) (qos retain : Nat) (ps : Props)
+    (hq : qos ≤ 2) (hr : retain ≤ 1) :
+    setDup (encodePublish pid topic payload qos retain 0 ps) = encodePublish pid topic payload qos retain 1 ps := by
+  simp only [encodePublish, packet, setDup]
+  have h0 : (((3 * 2 + 0) * 4 + qos) * 2 + retain) % 256 / 8 % 2 = 0 := by omega
+  have h1 : (((3 * 2 + 0) * 4 + qos) * 2 + retain) % 256 + 8 = (((3 * 2 + 1) * 4 + qos) * 2 + retain) % 256 := by omega
+  simp [h0, h1]
+
+/-- the first transmission has DUP = 0 and the retransmission DUP = 1, and both decode to the message asked for -/
+theorem retransmission_decodes_with_dup (pid : Nat) (topic payload : Bs) (qos retain : Nat) (ps : Props)
+    (h0 : C17.WFPublish (some pid) topic qos retain 0 ps) (h1 : C17.WFPublish (some pid) topic qos retain 1 ps)
+    (hsz : lenPrefixedSize topic + 2 + propsSize false ps + payload.length ≤ 268435455) :
+    Spec.Wire.decode (setDup (encodePublish pid topic payload qos retain 0 ps)) = some (.publish (some pid) topic payload qos retain 1 ps) := by
+  rw [retransmission_identical_but_dup pid topic payload qos retain ps h0.hqos h0.hretain]
+  have := C17.publish_encode_decodes (some pid) topic payload qos retain 1 ps h1 hsz
+  simpa [encode] using this
+
 end Mqtt5V.Props.C03
